@@ -1032,6 +1032,23 @@ VARIANTS += [
     M("prec-graph-dict-merge", SPFS, "            if gene_1 not in prec:\n                prec[gene_1] = set()\n            prec[gene_1].add(gene_2)\n", "            prec = {**prec, gene_1: {gene_2}}\n", "GRAPH-KEYS"),
     M("thl-root-hosts-filtered", REC, "    for root_species in rec_input.species_lca.tree.traverse():\n        results.update(", "    for root_species in rec_input.species_lca.tree.traverse():\n        if root_species.is_leaf():\n            continue\n\n        results.update(", "RESULT-SCOPE"),
     M("cli-eval-cost-literal", CLI, "    return eval(cost)  # pylint: disable=eval-used", "    import ast as _ast\n    return _ast.literal_eval(cost)", "COST-NO-ROUNDING"),
+    Variant("binarize-species-shortcut-tests-object-tree", MODEL, [
+        ("        for object_tree, species_tree in product(\n            binarize(self.object_tree),\n            binarize(self.species_lca.tree),\n        ):", "        object_trees = [self.object_tree] if is_binary(self.object_tree) else binarize(self.object_tree)\n        species_trees = [self.species_lca.tree] if is_binary(self.object_tree) else binarize(self.species_lca.tree)\n\n        for object_tree, species_tree in product(object_trees, species_trees):"),
+    ], ("BINARIZE-GUARD",)),
+    Variant("twin-binarize-per-tree-shortcut", MODEL, [
+        ("        for object_tree, species_tree in product(\n            binarize(self.object_tree),\n            binarize(self.species_lca.tree),\n        ):", "        object_trees = [self.object_tree] if is_binary(self.object_tree) else binarize(self.object_tree)\n        species_trees = [self.species_lca.tree] if is_binary(self.species_lca.tree) else binarize(self.species_lca.tree)\n\n        for object_tree, species_tree in product(object_trees, species_trees):"),
+    ], (), twin=True, note="a binary tree is its own single refinement"),
+    M("parse-mapping-one-index-for-both-trees", TMAP, "    return {\n        from_tree & from_node: to_tree & to_node for from_node, to_node in data.items()\n    }", "    nodes = {node.name: node for tree in (from_tree, to_tree) for node in tree.traverse()}\n    return {nodes[from_node]: nodes[to_node] for from_node, to_node in data.items()}", "MAPPING-KEYING"),
+    Variant("to-dict-costs-through-int-helper", MODEL, [
+        ("Self = TypeVar(\"Self\", bound=\"ReconciliationInput\")\n", "def _plain_cost(value):\n    if isinstance(value, float) and value == int(value):\n        return int(value)\n    return value\n\n\nSelf = TypeVar(\"Self\", bound=\"ReconciliationInput\")\n"),
+        ("            \"costs\": dict(((event.name, value) for event, value in self.costs.items())),", "            \"costs\": dict(((event.name, _plain_cost(value)) for event, value in self.costs.items())),"),
+    ], ("COST-PASSTHROUGH",)),
+    Variant("uspfs-sorts-leaf-syntenies-in-place", USPFS, [
+        ("        srec_input_bin.label_internal()\n        gain_sets = _compute_gain_sets(srec_input_bin)", "        srec_input_bin.label_internal()\n\n        for leaf, synteny in srec_input_bin.leaf_syntenies.items():\n            srec_input_bin.leaf_syntenies[leaf] = sort_synteny(synteny)\n\n        gain_sets = _compute_gain_sets(srec_input_bin)"),
+    ], ("READONLY-INPUT",)),
+    Variant("layout-min-spacing-only-between-populated", LAYOUT, [
+        ("                subtree_spacing = max(\n                    trunk_width - (left_trunk_dist + right_trunk_dist),\n                    params.min_subtree_spacing,\n                )", "                subtree_spacing = trunk_width - (left_trunk_dist + right_trunk_dist)\n\n                if left_info[\"branches\"] and right_info[\"branches\"]:\n                    subtree_spacing = max(subtree_spacing, params.min_subtree_spacing)"),
+    ], ("SUBTREE-BOX", "SIGMA-INVARIANCE")),
     M("update-returns-in-loop", DP, "                self._value = value\n\n    update.__doc__", "                self._value = value\n                return\n\n    update.__doc__", "UPDATE-ALL-CANDIDATES"),
 ]
 
